@@ -558,8 +558,40 @@ def stripDecor (w : List Char) : List Char :=
 def commentWords (c : List Char) : List (List Char) :=
   ((splitWs c).map stripDecor).filter (!·.isEmpty)
 
-/-- With the comment-rewriting options: the words of all comments, in order, are the same. -/
+/-- With the comment-rewriting options (`wrap_comments`, `normalize_comments`): the words of the
+input's comments occur in the output's comments, in order (a subsequence: a rewritten comment may
+gain decoration or swallow neighbouring text, which is not this property's concern). -/
 def wordsPreserved (ins outs : List (List Char)) : Bool :=
-  ins.flatMap commentWords == outs.flatMap commentWords
+  (ins.flatMap commentWords).isSublist (outs.flatMap commentWords)
+
+/-! ### Order-insensitive variants (fixture files: imports, modules and impl items may be reordered,
+and their comments move with them) -/
+
+/-- Lexicographic order on texts (by code point); any total order would do. -/
+def leChars : List Char → List Char → Bool
+  | [], _ => true
+  | _ :: _, [] => false
+  | a :: as, b :: bs =>
+    if a.toNat < b.toNat then true else if b.toNat < a.toNat then false else leChars as bs
+
+/-- A normalised comment as one text. -/
+def flatComment (c : List Char) : List Char := List.intercalate ['\n'] (normComment c)
+
+/-- The same comments up to re-indentation and trailing blanks, as multisets. -/
+def commentsPreservedUnordered (ins outs : List (List Char)) : Bool :=
+  (ins.map flatComment).mergeSort leChars == (outs.map flatComment).mergeSort leChars
+
+/-- Multiset inclusion of two sorted lists. -/
+def subMultisetSorted : List (List Char) → List (List Char) → Bool
+  | [], _ => true
+  | _ :: _, [] => false
+  | a :: as, b :: bs =>
+    if a == b then subMultisetSorted as bs
+    else if leChars b a then subMultisetSorted (a :: as) bs else false
+
+/-- Every word of the input's comments occurs in the output's comments at least as often. -/
+def wordsPreservedUnordered (ins outs : List (List Char)) : Bool :=
+  subMultisetSorted ((ins.flatMap commentWords).mergeSort leChars)
+    ((outs.flatMap commentWords).mergeSort leChars)
 
 end RF.Comment
